@@ -103,6 +103,14 @@ static int run_hist(const struct hist_case *hc)
 		printf("skip too_many_channels\n");
 		goto out;
 	}
+	/* frame info is available from state LOADED on: it must not show the previous module */
+	op.kind = OP_GETINFO;
+	c06_apply(A, &op, &mods, &oa);
+	c06_apply(B, &op, &mods, &ob);
+	if (oa.h != ob.h) {
+		printf("oracle_fail loaded_info %016llx %016llx\n", (unsigned long long)oa.h, (unsigned long long)ob.h);
+		bad = 1;
+	}
 	op.kind = OP_START; op.a = hc->rate; op.b = hc->fmt;
 	c06_apply(A, &op, &mods, &oa);
 	c06_apply(B, &op, &mods, &ob);
@@ -116,6 +124,14 @@ static int run_hist(const struct hist_case *hc)
 	}
 	libxmp_set_random(&a->rng, hc->rng);
 	libxmp_set_random(&b->rng, hc->rng);
+	/* ... and right after xmp_start_player, before the first frame */
+	op.kind = OP_GETINFO;
+	c06_apply(A, &op, &mods, &oa);
+	c06_apply(B, &op, &mods, &ob);
+	if (oa.h != ob.h) {
+		printf("oracle_fail started_info %016llx %016llx\n", (unsigned long long)oa.h, (unsigned long long)ob.h);
+		bad = 1;
+	}
 
 	c06_image_take(a, &ia);
 	c06_image_take(b, &ib);
